@@ -19,7 +19,7 @@ class Controller(metaclass=abc.ABCMeta):  # noqa: B024
         self.target = target
 
     @classmethod
-    def s(cls: Type[C], *args, **kwargs) -> Partial[C]:
+    def s(cls: Type[C], /, *args, **kwargs) -> Partial[C]:
         """
         Create an unbound prototype of this class, partially applying arguments
 
